@@ -27,14 +27,16 @@ const LATTICE: f64 = 16777216.0; // 2^24 lattice points in 360 degrees
 const EARTH_R_M: f64 = 6_371_008.8; // IUGG mean radius
 const SAT: i64 = 2_000_000_000;
 
-/// The ruler: great-circle distance in millimetres (saturated), longitudes modulo 360.
+/// The ruler: great-circle distance in millimetres (saturated), longitudes modulo 360
+/// (reduced with fmod, which is exact, so that absurdly large longitudes still denote the
+/// point they denote).
 fn ruler_mm(lat1: f64, lon1: f64, lat2: f64, lon2: f64) -> i64 {
     if !(lat1.is_finite() && lon1.is_finite() && lat2.is_finite() && lon2.is_finite()) {
         return SAT;
     }
     let (p1, p2) = (lat1.to_radians(), lat2.to_radians());
     let dp = (lat2 - lat1).to_radians();
-    let dl = (lon2 - lon1).to_radians();
+    let dl = ((lon2 % 360.0) - (lon1 % 360.0)).to_radians();
     let a = (dp / 2.0).sin().powi(2) + p1.cos() * p2.cos() * (dl / 2.0).sin().powi(2);
     let a = a.clamp(0.0, 1.0);
     let c = 2.0 * a.sqrt().atan2((1.0 - a).sqrt());
@@ -77,6 +79,19 @@ fn outcome(r: std::thread::Result<Option<Position>>, tlat: f64, tlon: f64) -> Va
             "err": ruler_mm(tlat, tlon, p.latitude, p.longitude),
         }),
     }
+}
+
+/// C05: the outcome plus the longitude distance to the reference modulo 360
+fn outcome_ref(r: std::thread::Result<Option<Position>>, tlat: f64, tlon: f64, rlon: f64) -> Value {
+    let lon = match &r {
+        Ok(Some(p)) => Some(p.longitude),
+        _ => None,
+    };
+    let mut v = outcome(r, tlat, tlon);
+    if let Some(lon) = lon {
+        v["dlonm"] = dlon_mod(lon, rlon);
+    }
+    v
 }
 
 /// DF17 frame carrying an airborne (TC 11) or surface (TC 7) position message.
@@ -159,7 +174,7 @@ fn run_c04(vectors: &[Value], tr: &mut Trace) {
 }
 
 /// References the lattice cannot express (finite but odd floats); index 0 = use the lattice.
-const SPECIAL: [f64; 9] = [
+const SPECIAL: [f64; 13] = [
     0.0,
     -0.0,
     5e-324,                  // smallest subnormal
@@ -169,7 +184,29 @@ const SPECIAL: [f64; 9] = [
     1.0e9,
     30.508474576271183,      // (360/59)*5 as in the crate's regression test for issue #153
     36.000000000000003,      // 7.2*5 + 3e-15
+    1.0e15,                  // ulp = 0.125 degree
+    1.0e17,                  // ulp = 16 degrees: wider than any zone
+    -1.0e17,
+    f64::MAX,
 ];
+
+/// |lon - rlon| reduced modulo 360 into [0, 180], as [degrees, micro] (part of the ruler:
+/// f64 subtraction of nearby doubles and fmod are exact; used by the trace specification
+/// where the integer micro-degree logging of huge coordinates saturates).
+fn dlon_mod(lon: f64, rlon: f64) -> Value {
+    if !(lon.is_finite() && rlon.is_finite()) {
+        return json!([SAT, 0]);
+    }
+    let d = lon - rlon;
+    if !d.is_finite() {
+        return json!([SAT, 0]);
+    }
+    let mut r = (d % 360.0).abs();
+    if r > 180.0 {
+        r = 360.0 - r;
+    }
+    micro(r)
+}
 
 fn run_c05(vectors: &[Value], tr: &mut Trace) {
     for v in vectors {
@@ -185,7 +222,7 @@ fn run_c05(vectors: &[Value], tr: &mut Trace) {
         let (res, p, yz, xz) = if kind == "air" {
             match parse_air(&f) {
                 Some(msg) => (
-                    outcome(catch_unwind(|| airborne_position_with_reference(&msg, rlat, rlon)), tlat, tlon),
+                    outcome_ref(catch_unwind(|| airborne_position_with_reference(&msg, rlat, rlon)), tlat, tlon, rlon),
                     par(&msg.parity), msg.lat_cpr, msg.lon_cpr,
                 ),
                 None => (json!({"o": "parse_failed"}), 9, 0, 0),
@@ -193,7 +230,7 @@ fn run_c05(vectors: &[Value], tr: &mut Trace) {
         } else {
             match parse_surf(&f) {
                 Some(msg) => (
-                    outcome(catch_unwind(|| surface_position_with_reference(&msg, rlat, rlon)), tlat, tlon),
+                    outcome_ref(catch_unwind(|| surface_position_with_reference(&msg, rlat, rlon)), tlat, tlon, rlon),
                     par(&msg.parity), msg.lat_cpr, msg.lon_cpr,
                 ),
                 None => (json!({"o": "parse_failed"}), 9, 0, 0),
@@ -202,7 +239,7 @@ fn run_c05(vectors: &[Value], tr: &mut Trace) {
         tr.emit(json!({
             "e": "c05", "id": id, "fam": v["fam"], "kind": kind, "i": i, "L": l, "M": m,
             "p": p, "yz": yz, "xz": xz,
-            "rlat": micro(rlat), "rlon": micro(rlon), "rlatb": f64_bits(rlat),
+            "rlat": micro(rlat), "rlon": micro(rlon), "rlatb": f64_bits(rlat), "rlonb": f64_bits(rlon),
             "dref": ruler_mm(tlat, tlon, rlat, rlon),
             "r": res,
         }));
